@@ -13,7 +13,7 @@ P = {
          "Every set of disjoint regions over U cells (adjacent vs merged distinguished) at several bases including the top of the address space, every query method at every address/length of the universe plus extremes; huge layouts probed at boundaries through raw regions; the trait-default mock keeps its regions in an order of its own (as given, reversed, rotated); regions carved out of one host mapping (adjacent in the host too); layouts ending at 2^64 offered to the mmap collection as well.",
          "Small universe (6..8 cells) for exhaustive part; large layouts only at boundary addresses. len=0 ranges recorded, not judged.", "2/C02"),
  "C03": ("model_checking", "E1-bfs", "explicit-state BFS over operation histories on real guest memory with a sparse byte-map reference model; full-memory diff after every transition",
-         "All layouts over a small universe x all (op, address, length) at depth 1 and all depth-2/3 histories over a reduced alphabet, on anonymous, file-backed and Xen-UNIX regions and a trait-default mock (unordered storage), short streams that also report Interrupted; after each step every byte of every region is compared with the model.",
+         "All layouts over a small universe x all (op, address, length) at depth 1 and all depth-2/3 histories over a reduced alphabet, on anonymous, file-backed and Xen-UNIX regions and a trait-default mock (unordered storage), short streams that also report Interrupted, regions beyond a MiB with single transfers up to 3 MiB; after each step every byte of every region is compared with the model.",
          "Universe of 6..7 one-byte cells; object types up to 16 bytes; ample in-memory streams (short streams belong to C14).", "2/C03"),
  "C04": ("model_checking", "E1-bfs", "explicit-state exploration of operation histories on one container against a Vec<u8> model, depth-1 full alphabet and depth-2 route pairs",
          "All accessors x all (offset, length, type) on containers of 0..24 bytes at every misalignment, every (src mod 8, dst mod 8, len<=9) class of the small-copy routine, depth-2 product of write route x read route, depth-3 on a reduced alphabet and write / nearly identical rewrite / read histories; single transfers of 2^24+1 bytes on a 16 MiB region; container (frame included) compared byte for byte after every operation.",
@@ -22,7 +22,7 @@ P = {
          "Every write path through every derivation chain of up to 2..3 links, page sizes from 1 byte to larger than the container, plain/Arc/optional/sliced bitmaps (made at size or grown by enlarge), histories interleaved with resets (whole bitmap, ranges, single pages, harvests); oracle: every byte that changed is dirty in the owning region's bitmap at its own offset; all interleavings of one tracked write (20 paths, incl. reads from a real descriptor with read(2) as a scheduling point) with a fetch-and-clear consumer.",
          "Containers of 16..24 bytes; chain depth <= 3; raw-pointer writes exempt as documented.", "2/C05"),
  "C06": ("model_checking", "E3-sched + trace enumeration", "trace enumeration of the primitive accesses of every (len, src mod 8, dst mod 8) class per entry point, and controlled-scheduler enumeration of all writer/reader interleavings at primitive-access granularity",
-         "Hook H1 records width and address of every primitive volatile access issued by the byte-copy helper; for all 576 classes x entry points the access sequence is checked (single access of the full width when aligned); the same rule with the guest bytes or the local buffer at host addresses with exactly 4..46 trailing zero bits and at every aligned position of a 4 KiB page, also through slices that start off the word grid, and through guest memory whose regions start off the word grid; Cursor sinks at every position; all interleavings of a flipping writer and a reader are enumerated and the reader must see old or new. Ordering clause: src/atomic_integer.rs compiled with loom atomics, message-passing litmus for six integer types x four ordering pairs (acquire/release strength).",
+         "Hook H1 records width and address of every primitive volatile access issued by the byte-copy helper; for all 576 classes x entry points the access sequence is checked (single access of the full width when aligned); the same rule with the guest bytes or the local buffer at host addresses with exactly 4..46 trailing zero bits and at every aligned position of a 4 KiB page, also through slices that start off the word grid, and through guest memory whose regions start off the word grid; Cursor sinks at every position; dirty-tracked slices after histories; all interleavings of a flipping writer and a reader are enumerated and the reader must see old or new. Ordering clause: src/atomic_integer.rs compiled with loom atomics, message-passing litmus for six integer types x four ordering pairs (acquire/release strength).",
          "One naturally aligned volatile access of <= 8 bytes is a single machine access (LLVM volatile semantics + x86-64 single-copy atomicity); SC interleavings; a SeqCst access carried out as acquire/release is not detectable by the engines present (DESIGN.md section 5).", "2/C06"),
  "C07": ("exploration", "exhaustive-inputs", "exhaustive enumeration of an extreme-value alphabet over every public entry point, two build profiles, every call under catch_unwind + fault handler + hang watchdog",
          "Every access/query entry point of slices, regions, guest memory, bitmaps and stream helpers x boundary and extreme addresses/lengths/counts x layouts at the bottom and top of the address space; each call under catch_unwind plus a SIGABRT/SIGSEGV/SIGFPE handler that attributes the fault to the call, with a watchdog for calls that do not return, in the overflow-checked and in the release profile.",
@@ -31,7 +31,7 @@ P = {
          "All interleavings (unbounded for the small harnesses, preemption-bounded where stated) of 2..3 real threads marking, resetting, harvesting and cloning one AtomicBitmap whose pages share a word or straddle two words (page sizes 1..4096 bytes, tracked ranges ending in a partial page, marks and resets running past the end, slice marks on page sizes that are not a power of two, pre-marked words with two interfering changes); harnesses explored smallest schedule space first; every schedule is an execution of the real code; per-page conservation oracle plus a real-time-order oracle from recorded call/return events (a mark must be visible at the end or accounted for by a harvest/reset that returned after the mark was called). A second engine, loom, enumerates every C11-consistent execution (interleavings and weak-memory reorderings) of smaller harnesses on the bitmap source compiled from the tree with loom's atomics.",
          "E3: SC interleavings of whole atomic operations, interception by type through hook H2. loom: its model of the C11 memory model; the bitmap source is copied from the tree with only the atomic import switched.", "2/C08"),
  "C09": ("model_checking", "E1-bfs", "explicit-state BFS to a fixpoint over all public bitmap operations on tiny bitmaps, BTreeSet page-set model; exhaustive ranges on word-boundary configurations",
-         "Closure over all operation sequences on bitmaps of <= 6 pages (state = complete concrete bitmap state), plus every (start,len) from boundary alphabets on 63..129-page and non-power-of-two configurations; model comparison of every observable after every step; all histories of 3..4 operations over a reduced alphabet without merging states; geometries within a page of usize::MAX.",
+         "Closure over all operation sequences on bitmaps of <= 6 pages (state = complete concrete bitmap state), plus every (start,len) from boundary alphabets on 63..129-page and non-power-of-two configurations; model comparison of every observable after every step; all histories of 3..4 operations over a reduced alphabet without merging states; geometries within a page of usize::MAX; clone_from into larger bitmaps.",
          "enlarge() bounded in total growth; page sizes {1,2,3} for the closure.", "2/C09"),
  "C10": ("model_checking", "E1-bfs", "explicit-state BFS to a fixpoint over insert/remove/build on real mmap regions, interval-list model, ancestors kept alive and re-checked",
          "From every reachable map: every insert interval of the universe, every region handle already held by the map or an ancestor, every (base,size) removal, every ordered build list of <= 3 intervals and lists with a repeated handle, the same lists through from_ranges / from_ranges_with_files with shared-file windows; all constructors, file-backed too, agree at the top of the address space; documented error classes; parent and all ancestor maps re-read after every transition.",
